@@ -7,6 +7,7 @@ CONSTANTS
   DevNoHsTimer = FALSE
   DevReadOnceAfterHandshake = FALSE
   DevPlainTimeoutReply = FALSE
+  DevCloseBeforeDeliver = FALSE
 INVARIANT PrefixAlways
 INVARIANT CompleteAtClose
 INVARIANT ClosedAfterCloseNotify
@@ -15,6 +16,7 @@ INVARIANT NoPlainBeforeTls
 INVARIANT OnlyTlsOnWire
 INVARIANT PlainInOrder
 INVARIANT PlainComplete
+INVARIANT RequestAnswered
 INVARIANT HsTimerWhileHandshaking
 PROPERTY SilentPeerDropped
 CHECK_DEADLOCK FALSE
